@@ -149,20 +149,28 @@ def buildBase (j : Json) (k : Nat) (y : Array F) : Option (Base k) := do
 where
   t' {k : Nat} (t : Fin k → F) (i : Nat) : F := if h : i < k then t ⟨i, h⟩ else 0.0
 
+/-- `"defaults": true` — the object only defines the transformation; `Likelihood`'s defaults apply:
+    `L` = pull-back of the transformation (= the class's own `L` by the `L_is_pullback_*` theorems), `R = Lᵀ`, `M = L∘R` -/
+def applyDefaults {k : Nat} (dflt : Bool) (b : Base k) : Base k :=
+  if dflt then ⟨LR.ofL b.lr.L, b.T⟩ else b
+
 /-- a term lifted to the latent space of dimension `n` -/
 def buildTerm (j : Json) (n : Nat) : Except String (LR F n × Option (List F)) := do
   let some y := fArr? j "y" | throw "bad-args"
   let k := y.size
+  let dflt := (fBool? j "defaults").getD false
   match field? j "J" with
   | none | some Json.null =>
     if h : k = n then
-      let some b := buildBase j k y | throw "bad-term"
+      let some b0 := buildBase j k y | throw "bad-term"
+      let b := applyDefaults dflt b0
       pure (h ▸ b.lr, b.T)
     else throw "dim-mismatch"
   | some _ =>
     let some Jm := fMat? j "J" | throw "bad-args"
     if Jm.size != k ∨ Jm.any (fun r => r.size != n) then throw "dim-mismatch" else
-    let some b := buildBase j k y | throw "bad-term"
+    let some b0 := buildBase j k y | throw "bad-term"
+    let b := applyDefaults dflt b0
     pure (LR.withModel (matOf Jm k n) b.lr, b.T)
 
 def selOf (liquid : Array Nat) (n : Nat) : Option (Fin liquid.size → Fin n) :=
